@@ -173,8 +173,12 @@ def job_family(args):
 
 def job_functions(_):
     """calc_vec_f*/calc_f* vs exact functions and derivatives, all 30 indices"""
-    T = CTables(SRC).load('bardell_functions.c')
     out = {'ob': 0, 'unsat': 0, 'sat': [], 'unknown': [], 'ms': 0.0, 'samples': [], 'errors': []}
+    try:
+        T = CTables(SRC).load('bardell_functions.c')
+    except CParseError as e:
+        out['errors'].append('bardell_functions.c: %s' % e)
+        return out
     for d, (vec, sca, arr) in enumerate([('calc_vec_f', 'calc_f', 'f'), ('calc_vec_fxi', 'calc_fxi', 'fxi'), ('calc_vec_fxixi', 'calc_fxixi', 'fxixi')]):
         try:
             V = T.vector(vec)
@@ -331,6 +335,33 @@ def replay_grid(kind, nx, ny):
     return worst
 
 
+def float_twin_functions():
+    """the gcc-built function tables evaluated through ctypes at a few points INCLUDING the interval ends, against the exact
+    polynomials (sampling, stated as such: it sees branches on the floating-point argument that the table reader does not interpret)"""
+    tmp = tempfile.mkdtemp(prefix='c10f_')
+    bad = []
+    try:
+        lib = ctypes.CDLL(build_shared(SRC, tmp))
+        pts = [Fraction(-1), Fraction(-3, 5), Fraction(0), Fraction(1, 4), Fraction(1)]
+        for d, (vec, sca) in enumerate((('calc_vec_f', 'calc_f'), ('calc_vec_fxi', 'calc_fxi'), ('calc_vec_fxixi', 'calc_fxixi'))):
+            fv, fs = getattr(lib, vec), getattr(lib, sca)
+            fs.restype = ctypes.c_double
+            for xi in pts:
+                buf = (ctypes.c_double * 30)()
+                fv(buf, ctypes.c_double(float(xi)), *[ctypes.c_double(1.)] * 4)
+                for i in range(30):
+                    pol = B.f(i, 'xi', FLAGS4, d)
+                    ex = float(pol.eval({'xi': xi, **{k: Fraction(1) for k in FLAGS4}}))
+                    tol = max(1e-12, 1e-11 * float(pol.abs_coef_sum()))        # double evaluation of a polynomial with large alternating coefficients
+                    sc = fs(ctypes.c_int(i), ctypes.c_double(float(xi)), *[ctypes.c_double(1.)] * 4)
+                    for which, got in ((vec, buf[i]), (sca, sc)):
+                        if abs(got - ex) > tol:
+                            bad.append({'function': which, 'index': i, 'xi': str(xi), 'got': got, 'exact': ex})
+    finally:
+        shutil.rmtree(tmp, ignore_errors=True)
+    return bad
+
+
 def replay_table(lib, name, i, j, point):
     """concrete replay through the gcc-built table"""
     fn = getattr(lib, name)
@@ -433,6 +464,17 @@ def main():
             run.sample(s, cap=14)
         for s in r['sat']:
             viol.append((label, None, s))
+    try:
+        twin = float_twin_functions()
+    except Exception as e:
+        twin = []
+        run.harness_error('float twin of the function tables could not be built: %s' % e)
+    run.extra['float_twin_of_the_function_tables'] = {'points': ['-1', '-3/5', '0', '1/4', '1'], 'mismatches': len(twin)}
+    if twin:
+        run.obligations += 1
+        b0 = twin[0]
+        run.violation('functions/float-twin/%s' % b0['function'], '%s: %d values of the gcc-built function tables differ from the exact polynomials, e.g. index %d at xi=%s: %.6g, exact %.6g (float twin: one evaluation per point, no solver verdict)' % (
+            b0['function'], len(twin), b0['index'], b0['xi'], b0['got'], b0['exact']), {'mismatches': twin[:20]})
     # replay violations through the real (gcc-built) tables
     if viol:
         tmp = tempfile.mkdtemp(prefix='c10_')
